@@ -68,11 +68,9 @@ func (q rangeQuery) Run() queryResult {
 
 	var ranges MetricTimeRanges
 	ranges, qr.stats, qr.err = streamSampleStream(resp.Body, q.r.Step)
-	if qr.err != nil && errors.Is(ctx.Err(), context.Canceled) {
-		// This slice was cancelled, because another slice failed, while we were still
-		// reading the response, report it as cancelled rather than as a response we couldn't parse.
-		qr.err = ctx.Err()
-	}
+	// This slice might have been cancelled, because another slice failed, or timed out while
+	// we were still reading the response, report that rather than a response we couldn't parse.
+	qr.err = bodyError(ctx, qr.err)
 	ExpandRangesEnd(ranges, q.r.Step)
 	qr.value = ranges
 	return qr
